@@ -9,7 +9,7 @@
    bytes); [file_end] is that length; [existing rq pre] is the entry
    saveMetaData merges into (pre when op=append, else none). *)
 From Coq Require Import List NArith ZArith Bool.
-From SW Require Import model.FilerWrite proof.FilerWriteProofs.
+From SW Require Import model.FilerWrite proof.FilerWriteProofs proof.FilerWriteFs.
 Import ListNotations.
 
 (* ------------------------------------------------------------------ *)
@@ -88,6 +88,186 @@ Proof. exact nonsuccess_no_commit. Qed.
 Print Assumptions c25_nonsuccess_no_commit.
 
 (* ------------------------------------------------------------------ *)
+(* 4. the store around the path: [handle_write_fs] adds saveMetaData's path fix
+      (a URL path that is an existing directory receives "/" + fileName),
+      Filer.CreateEntry's refusals and the fate of the uploaded chunks.
+      [target fr st] is the entry under the resolved path, [slot_after fr st st']
+      the same path in a later state, [other_after] the other of the two paths. *)
+
+(* handle_write_fs is handle_write on the resolved path whenever CreateEntry accepts (full) *)
+Theorem c25_fs_refines : forall md5 fr st,
+  let rq := fr_rq fr in
+  let pre := node_entry (target fr st) in
+  (existing rq pre = None -> create_fails fr st = false) ->
+  let r := handle_write_fs md5 fr st in
+  fo_status r = fst (handle_write md5 rq pre) /\
+  node_entry (slot_after fr st (fo_state r)) = snd (handle_write md5 rq pre) /\
+  other_after fr st (fo_state r) = other_after fr st st.
+Proof. exact fs_refines. Qed.
+Print Assumptions c25_fs_refines.
+
+(* a PUT/POST (or an append to a missing path) that CreateEntry accepts stores
+   exactly the body as a regular file under the resolved path - also when the URL
+   named a directory -, touches nothing else, leaves no chunk behind and hands
+   exactly the replaced file's chunks to DeleteChunks (full) *)
+Theorem c25_fs_stored_equals_body : forall md5 fr st,
+  let rq := fr_rq fr in
+  rq_method rq <> PostRaw -> (1 <= rq_cs rq)%Z -> rq_end rq = Eof -> no_upfail (rq_upfail rq) ->
+  existing rq (node_entry (target fr st)) = None -> create_fails fr st = false ->
+  let r := handle_write_fs md5 fr st in
+  exists e, fo_status r = Created /\
+            slot_after fr st (fo_state r) = NFile e /\
+            read_entry e = rq_body rq /\
+            e_size e = N.of_nat (length (rq_body rq)) /\
+            e_md5 e = Some (md5 (rq_body rq)) /\
+            other_after fr st (fo_state r) = other_after fr st st /\
+            fo_deleted r = [] /\ fo_leaked r = [] /\
+            fo_replaced r = match target fr st with NFile e0 => e_chunks e0 | _ => [] end.
+Proof. exact fs_stored_equals_body. Qed.
+Print Assumptions c25_fs_stored_equals_body.
+
+(* an append to a chunked FILE under the resolved path (full) *)
+Theorem c25_fs_append_at_end : forall md5 fr st e0,
+  let rq := fr_rq fr in
+  rq_method rq <> PostRaw -> (1 <= rq_cs rq)%Z -> rq_end rq = Eof -> no_upfail (rq_upfail rq) ->
+  rq_append rq = true -> target fr st = NFile e0 -> e_content e0 = [] -> wf_entry e0 ->
+  let r := handle_write_fs md5 fr st in
+  exists e1, fo_status r = Created /\
+             slot_after fr st (fo_state r) = NFile e1 /\
+             read_entry e1 = read_entry e0 ++ rq_body rq /\
+             file_end e1 = (file_end e0 + N.of_nat (length (rq_body rq)))%N /\
+             e_size e1 = file_end e1 /\
+             other_after fr st (fo_state r) = other_after fr st st /\
+             fo_deleted r = [] /\ fo_leaked r = [] /\ fo_replaced r = [].
+Proof. exact fs_append_at_end. Qed.
+Print Assumptions c25_fs_append_at_end.
+
+(* CreateEntry refuses (a regular file above the path -> 409, a directory at the
+   path -> 500): failed, nothing committed, exactly the uploaded chunks are handed
+   to DeleteChunks, none is left behind (full) *)
+Theorem c25_fs_create_failure : forall md5 fr st,
+  let rq := fr_rq fr in
+  rq_method rq <> PostRaw -> ur_failed (upload_of rq) = false ->
+  existing rq (node_entry (target fr st)) = None -> create_fails fr st = true ->
+  let r := handle_write_fs md5 fr st in
+  fo_status r = Failed /\ fo_state r = st /\
+  fo_deleted r = ur_chunks (loop_of rq) /\ fo_leaked r = [] /\ fo_replaced r = [].
+Proof. exact fs_create_failure. Qed.
+Print Assumptions c25_fs_create_failure.
+
+(* every answer other than 201 leaves both paths as they were (full) *)
+Theorem c25_fs_nonsuccess_no_commit : forall md5 fr st,
+  fo_status (handle_write_fs md5 fr st) <> Created ->
+  fo_status (handle_write_fs md5 fr st) = Failed /\ fo_state (handle_write_fs md5 fr st) = st.
+Proof. exact fs_nonsuccess_no_commit. Qed.
+Print Assumptions c25_fs_nonsuccess_no_commit.
+
+(* an upload or body-read failure commits nothing and deletes nothing: the chunks
+   uploaded before the failure stay on the volume servers, referenced by no entry
+   (exact description of the code; a storage leak, not a truncated file) (full) *)
+Theorem c25_fs_upload_failure_leaks : forall md5 fr st,
+  let rq := fr_rq fr in
+  rq_method rq <> PostRaw -> ur_failed (upload_of rq) = true ->
+  let r := handle_write_fs md5 fr st in
+  fo_status r = Failed /\ fo_state r = st /\
+  fo_deleted r = [] /\ fo_leaked r = ur_chunks (loop_of rq).
+Proof. exact fs_upload_failure_leaks. Qed.
+Print Assumptions c25_fs_upload_failure_leaks.
+
+(* an append to a file with inline content is refused, nothing committed (full) *)
+Theorem c25_fs_append_inline_refused : forall md5 fr st e0,
+  let rq := fr_rq fr in
+  rq_append rq = true -> node_entry (target fr st) = Some e0 -> e_content e0 <> [] ->
+  let r := handle_write_fs md5 fr st in
+  fo_status r = Failed /\ fo_state r = st /\ fo_deleted r = [].
+Proof. exact fs_append_inline_refused. Qed.
+Print Assumptions c25_fs_append_inline_refused.
+
+(* KNOWN FINDING 0 (c25-append-onto-directory).  "Every 201 leaves a regular file
+   holding the bytes under the resolved path" is FALSE: ?op=append merges into
+   whatever FindEntry returns, a directory included (refuted) *)
+Theorem c25_created_is_file_refuted :
+  exists fr st,
+    rq_method (fr_rq fr) <> PostRaw /\ rq_end (fr_rq fr) = Eof /\ no_upfail (rq_upfail (fr_rq fr)) /\
+    trigger_append_dir fr st = true /\
+    fo_status (handle_write_fs (fun _ => 0%N) fr st) = Created /\
+    forall e, slot_after fr st (fo_state (handle_write_fs (fun _ => 0%N) fr st)) <> NFile e.
+Proof. exact created_is_file_refuted. Qed.
+Print Assumptions c25_created_is_file_refuted.
+
+(* outside the trigger (per request: op=append AND the resolved path holds a
+   directory) it is true (partial) *)
+Theorem c25_created_is_file_partial : forall md5 fr st,
+  trigger_append_dir fr st = false ->
+  fo_status (handle_write_fs md5 fr st) = Created ->
+  exists e, slot_after fr st (fo_state (handle_write_fs md5 fr st)) = NFile e.
+Proof. exact created_is_file_partial. Qed.
+Print Assumptions c25_created_is_file_partial.
+
+(* inside the trigger the answer is 201 and the new chunks hang on the directory entry (exact) *)
+Theorem c25_append_dir_exact : forall md5 fr st e0,
+  let rq := fr_rq fr in
+  rq_method rq <> PostRaw -> ur_failed (upload_of rq) = false ->
+  rq_append rq = true -> target fr st = NDir e0 -> e_content e0 = [] ->
+  let r := handle_write_fs md5 fr st in
+  fo_status r = Created /\
+  exists e1, slot_after fr st (fo_state r) = NDir e1 /\
+             e_chunks e1 = e_chunks e0 ++ map (shift_chunk (entry_size e0)) (ur_chunks (upload_of rq)).
+Proof. exact append_dir_exact. Qed.
+Print Assumptions c25_append_dir_exact.
+
+(* PUT /d onto a directory /d: the body lands under /d/d, /d stays a directory *)
+Example c25_example_redirect :
+  let fr := mk_fr (mk_rq Put false false 2 0 [1;2;3]%N Eof []) false true false in
+  let st := {| fs_a := NDir empty_dir; fs_b := NMissing |} in
+  create_fails fr st = false /\
+  handle_write_fs (fun _ => 0%N) fr st =
+    {| fo_status := Created;
+       fo_state := {| fs_a := NDir empty_dir;
+                      fs_b := NFile {| e_size := 3; e_content := [];
+                                       e_chunks := [Ck 0 2 [1;2]; Ck 2 1 [3]]%N; e_md5 := Some 0%N |} |};
+       fo_deleted := []; fo_leaked := []; fo_replaced := [] |}.
+Proof. exact example_redirect. Qed.
+Print Assumptions c25_example_redirect.
+
+(* PUT below a regular file: failed, nothing committed, both uploaded chunks deleted *)
+Example c25_example_parent_file :
+  let fr := mk_fr (mk_rq Put false false 2 0 [1;2;3]%N Eof []) false true true in
+  let st := {| fs_a := NMissing; fs_b := NMissing |} in
+  create_fails fr st = true /\ ur_failed (upload_of (fr_rq fr)) = false /\
+  handle_write_fs (fun _ => 0%N) fr st =
+    {| fo_status := Failed; fo_state := st;
+       fo_deleted := [Ck 0 2 [1;2]; Ck 2 1 [3]]%N; fo_leaked := []; fo_replaced := [] |}.
+Proof. exact example_parent_file. Qed.
+Print Assumptions c25_example_parent_file.
+
+(* the second of two uploads fails: the first chunk stays behind, unreferenced *)
+Example c25_example_leak :
+  let fr := mk_fr (mk_rq Put false false 2 0 [1;2;3]%N Eof [false;true]) false true false in
+  let st := {| fs_a := NMissing; fs_b := NMissing |} in
+  ur_failed (upload_of (fr_rq fr)) = true /\
+  handle_write_fs (fun _ => 0%N) fr st =
+    {| fo_status := Failed; fo_state := st;
+       fo_deleted := []; fo_leaked := [Ck 0 2 [1;2]%N]; fo_replaced := [] |}.
+Proof. exact example_leak. Qed.
+Print Assumptions c25_example_leak.
+
+(* the partial theorem's hypothesis is satisfiable on an append reached through a redirect *)
+Example c25_example_append_redirected :
+  let fr := mk_fr (mk_rq Put true false 2 0 [9]%N Eof []) false true false in
+  let st := {| fs_a := NDir empty_dir;
+               fs_b := NFile {| e_size := 0; e_content := []; e_chunks := [Ck 0 3 [1;2;3]%N]; e_md5 := None |} |} in
+  trigger_append_dir fr st = false /\
+  handle_write_fs (fun _ => 0%N) fr st =
+    {| fo_status := Created;
+       fo_state := {| fs_a := NDir empty_dir;
+                      fs_b := NFile {| e_size := 4; e_content := [];
+                                       e_chunks := [Ck 0 3 [1;2;3]; Ck 3 1 [9]]%N; e_md5 := None |} |};
+       fo_deleted := []; fo_leaked := []; fo_replaced := [] |}.
+Proof. exact example_append_redirected. Qed.
+Print Assumptions c25_example_append_redirected.
+
+(* ------------------------------------------------------------------ *)
 (* the length-level plan used for the 1 MiB cases is the shape of the byte-level model *)
 Theorem c25_plan_is_shape : forall cs limit inl etc bytes e upfail,
   shape (upload_reader_to_chunks cs limit inl etc bytes e upfail) =
@@ -107,6 +287,7 @@ Example c25_example_chunked :
     (Created, Some {| e_size := 7; e_content := [];
                       e_chunks := [Ck 0 3 [1;2;3]; Ck 3 3 [4;5;6]; Ck 6 1 [7]]%N; e_md5 := Some 7%N |}).
 Proof. exact example_chunked. Qed.
+Print Assumptions c25_example_chunked.
 
 (* 2 bytes below the limit 5, chunk size 4: inline *)
 Example c25_example_inline :
@@ -114,6 +295,7 @@ Example c25_example_inline :
   handle_write (fun l => N.of_nat (length l)) rq None =
     (Created, Some {| e_size := 2; e_content := [8;9]%N; e_chunks := []; e_md5 := Some 2%N |}).
 Proof. exact example_inline. Qed.
+Print Assumptions c25_example_inline.
 
 (* limit 4 above the chunk size 2, body of 3 bytes: chunked, nothing dropped *)
 Example c25_example_limit_above_chunk :
@@ -121,12 +303,14 @@ Example c25_example_limit_above_chunk :
   exists e, handle_write (fun _ => 0%N) rq None = (Created, Some e) /\
             e_content e = [] /\ read_entry e = [1;2;3]%N.
 Proof. exact example_limit_above_chunk. Qed.
+Print Assumptions c25_example_limit_above_chunk.
 
 (* the same under /etc *)
 Example c25_example_etc :
   let rq := mk_rq Put false true 2 0 [1;2;3]%N Eof [] in
   exists e, handle_write (fun _ => 0%N) rq None = (Created, Some e) /\ read_entry e = [1;2;3]%N.
 Proof. exact example_etc. Qed.
+Print Assumptions c25_example_etc.
 
 (* append to an entry with chunk [0,3) and FileSize attribute 0 (as S3 multipart
    completion creates): the new byte lands at offset 3 *)
@@ -137,21 +321,25 @@ Example c25_example_append_filesize0 :
   exists e1, handle_write (fun _ => 0%N) rq (Some e0) = (Created, Some e1) /\
              read_entry e1 = [97;98;99;90]%N /\ e_size e1 = 4%N.
 Proof. exact example_append_filesize0. Qed.
+Print Assumptions c25_example_append_filesize0.
 
 (* the reader fails after 3 bytes: reported, nothing committed *)
 Example c25_example_read_error :
   let rq := mk_rq Put false false 2 0 [1;2;3]%N ReadErr [] in
   request_fails rq = true /\ handle_write (fun _ => 0%N) rq None = (Failed, None).
 Proof. exact example_read_error. Qed.
+Print Assumptions c25_example_read_error.
 
 (* the second upload fails: reported, nothing committed *)
 Example c25_example_upload_failure :
   let rq := mk_rq Put false false 2 0 [1;2;3]%N Eof [false;true] in
   request_fails rq = true /\ handle_write (fun _ => 0%N) rq None = (Failed, None).
 Proof. exact example_upload_failure. Qed.
+Print Assumptions c25_example_upload_failure.
 
 (* maxMB=2048 and maxMB=0 are rejected; 2047 is the largest accepted value *)
 Example c25_example_maxmb :
   auto_chunk_size 2048 4 = None /\ auto_chunk_size 0 0 = None /\
   auto_chunk_size 2047 4 = Some 2146435072%Z /\ auto_chunk_size 0 4 = Some 4194304%Z.
 Proof. exact example_maxmb. Qed.
+Print Assumptions c25_example_maxmb.
